@@ -3,7 +3,7 @@
    The programme model is Model/Reloc.v (items contributing bytes as a function of the base),
    the value domain is Model/Poly.v (LinearPolynomial). *)
 From Coq Require Import String List ZArith Bool.
-From Verif Require Import Base.Res Base.Bytes Model.Poly Model.Reloc Proofs.PolyP Proofs.RelocP.
+From Verif Require Import Base.Res Base.Bytes Model.Poly Model.Reloc Model.Insns Gen.GenGetAsInt Proofs.PolyP Proofs.RelocP Proofs.RelocInsnsP.
 Import ListNotations.
 Open Scope Z_scope.
 
@@ -61,10 +61,43 @@ Theorem C09_label_plus_const_moves_by_one : forall k c, acoef (AAdd (ALab k) (AC
 Proof. exact acoef_lab_plus. Qed.
 Print Assumptions C09_label_plus_const_moves_by_one.
 
+(* ---- the field functions of Model/Reloc.v ARE the functions the other properties use: the range
+        rule regenerated from metacommand_impl.get_as_int (Gen/GenGetAsInt, C06) and the encoders of
+        Model/Insns.v (C01/C04).  [first_error]: Reloc reports the first error where enc_offset lists both. ---- *)
+Theorem C09_get_as_int_is_generated : forall bits v, 0 <= bits ->
+  Reloc.get_as_int bits v = GenGetAsInt.get_as_int (Some bits) false None v.
+Proof. exact reloc_get_as_int_is_generated. Qed.
+Print Assumptions C09_get_as_int_is_generated.
+
+Theorem C09_abs_field_is_insns : forall b e, abs_field b e = do v <- Insns.int16 (aval b e); Ok (le16 v).
+Proof. exact abs_field_is_int16. Qed.
+Print Assumptions C09_abs_field_is_insns.
+
+Theorem C09_rel_value_is_insns : forall b pos e, rel_value b pos e = enc_rel (aval b e) (b + pos).
+Proof. exact rel_value_is_enc_rel. Qed.
+Print Assumptions C09_rel_value_is_insns.
+
+Theorem C09_branch_field_is_insns : forall b pos op e,
+  branch_field b pos op e =
+  first_error (do f <- enc_offset false 8 (aval b e) (b + pos + 2); Ok (le16 (op + f mod 256))).
+Proof. exact branch_field_is_enc_offset. Qed.
+Print Assumptions C09_branch_field_is_insns.
+
+Theorem C09_sob_field_is_insns : forall b pos op e,
+  sob_field b pos op e =
+  first_error (do f <- enc_offset true 6 (aval b e) (b + pos + 2); Ok (le16 (op + f mod 64))).
+Proof. exact sob_field_is_enc_offset. Qed.
+Print Assumptions C09_sob_field_is_insns.
+
 (* ---- the law.  For every programme of the model and every two bases at which it assembles
         (D9 for their difference: alignment moduli divide it; branch targets move with the base;
         bytes hold no address), the second image is the first one patched at exactly the words
-        listed by abs_words, each by coefficient * difference modulo 2^16. ---- *)
+        listed by abs_words, each by coefficient * difference modulo 2^16.
+        EXCLUDED by D9, on purpose: a BYTE that holds an address (`.byte label`, item ByteExpr e with
+        acoef e <> 0).  The exclusion is necessary, not a convenience: such a byte does change with
+        the base, it is not a 16-bit word, and the law as stated (only absolute address WORDS move,
+        each by delta) is false for it -- see C09_ex_byte_address below.  The generator only puts
+        label differences and constants into bytes. ---- *)
 Theorem C09_relocation : forall p b1 b2 i1 i2, d9 (b2 - b1) p = true ->
   image b1 p = Ok i1 -> image b2 p = Ok i2 ->
   i2 = patch i1 0 (abs_words b1 p) (b2 - b1).
@@ -115,6 +148,13 @@ Example C09_ex_images :
   image 512 ex_prog = Ok [192;23;0;2; 193;21;2;2; 251;1; 194;29;242;255; 0;0; 0;2] /\
   image 1024 ex_prog = Ok [192;23;0;4; 193;21;2;4; 251;1; 194;29;242;255; 0;0; 0;4] /\
   abs_words 512 ex_prog = [(2,1); (6,1); (16,1)] /\ d9 512 ex_prog = true.
+Proof. vm_compute. repeat split. Qed.
+(* why D9 excludes a byte that holds an address: `.link b / a: .byte a` assembles at b = 8 and b = 16,
+   abs_words lists nothing, yet the images differ -- the law would be false without the exclusion *)
+Example C09_ex_byte_address :
+  d9 8 [ByteExpr (ALab 0)] = false /\
+  image 8 [ByteExpr (ALab 0)] = Ok [8] /\ image 16 [ByteExpr (ALab 0)] = Ok [16] /\
+  abs_words 8 [ByteExpr (ALab 0)] = [].
 Proof. vm_compute. repeat split. Qed.
 (* near the top of the address space the law is conditional: the label word no longer fits *)
 Example C09_ex_wrap : image 65534 [Fixed [160;0]; AbsWord (ALab 2)] = Err ["value-out-of-bounds"%string]
